@@ -97,7 +97,7 @@ pub fn main(a: Args) -> i32 {
     std::fs::create_dir_all(&bindir).unwrap();
     let _ = std::os::unix::fs::symlink(&copia, format!("{}/copia", bindir));
     let mut r = Rng::new(a.seed ^ 0xC13);
-    let nhist = if a.tier == "thorough" { 300 } else { 36 };
+    let nhist = if a.tier == "thorough" { 300 } else { 60 };
     let pool: Vec<Vec<u8>> = vec![b"".to_vec(), b"A".to_vec(), b"BB".to_vec(), b"hello world".to_vec(), vec![0x58; 3000], (0..=255u8).collect(), vec![0x5a; 300_000]];
     // "d" as a FILE clashes with the directory of d/x, d/y, d/z'q: one tree never holds both, two clients (or a client and
     // the hub) may
